@@ -24,4 +24,7 @@ VARIANTS = [
     V("N-is-none-inverted", A + "recording.py", "        path = obj.path\n        if self.audio_dir is not None:\n            path = self.audio_dir / obj.path\n",
       "        if self.audio_dir is None:\n            path = obj.path\n        else:\n            path = self.audio_dir / obj.path\n", None),
     V("N-saver-keyword", "src/soundevent/io/saver.py", "return saver(obj, path, audio_dir, **kwargs)", "return saver(obj, path, audio_dir=audio_dir, **kwargs)", None),
+    # F20 / F26: the pre-repair forms
+    V("containment-lexical-only(F20)", "src/soundevent/io/aoef/recording.py", "            if \"..\" in Path(os.path.normpath(path)).parts:\n                raise ValueError(\n                    f\"Recording path {obj.path} is outside the audio \"\n                    f\"directory {self.audio_dir}.\"\n                )\n", "", "R18.4"),
+    V("document-in-locale-encoding(F26)", "src/soundevent/io/aoef/__init__.py", "        path.read_text(encoding=\"utf-8\")", "        path.read_text()", "R18.5"),
 ]
